@@ -97,13 +97,15 @@ func genCfg(r *rand.Rand) sim.Cfg {
 }
 
 type walker struct {
-	lagExp     int
-	lagDecided bool
-	r          *rand.Rand
-	s          *sim.Sim
-	acts       []sim.Action
-	nextName   int
-	settings   int
+	lagExp        int
+	lagDecided    bool
+	lagSug        int
+	lagSugDecided bool
+	r             *rand.Rand
+	s             *sim.Sim
+	acts          []sim.Action
+	nextName      int
+	settings      int
 }
 
 func (w *walker) do(a sim.Action) {
@@ -301,7 +303,24 @@ func (w *walker) step() {
 	} else {
 		add(5, sim.Action{Op: "syncexp"})
 	}
-	add(5, sim.Action{Op: "syncsug"})
+	// a lagging suggestion cache around the verdict: the experiment controller then cleans up / restarts the suggestion from a
+	// copy that misses what the suggestion controller wrote last
+	if expCompleted(p) && s.StaleSug() {
+		if !w.lagSugDecided {
+			w.lagSugDecided = true
+			if r.Intn(2) == 0 {
+				w.lagSug = 25
+			}
+		}
+	} else if !expCompleted(p) {
+		w.lagSugDecided = false
+	}
+	if w.lagSug > 0 {
+		w.lagSug--
+		add(0.3, sim.Action{Op: "syncsug"})
+	} else {
+		add(5, sim.Action{Op: "syncsug"})
+	}
 	add(6, sim.Action{Op: "synctrials"})
 	if p.Exp != nil && p.Exp.Max != nil {
 		completed := false
